@@ -5,6 +5,10 @@ import fcntl, hashlib, json, os, re, shutil, subprocess, sys, time, glob
 VERIF = os.path.dirname(os.path.dirname(os.path.abspath(__file__)))
 REPO = os.environ.get("VERIF_REPO", "/repo")
 BUILD = os.path.join(VERIF, ".build")
+if os.path.realpath(REPO) != "/repo":
+    # a scratch tree (seeded change, refactoring): its binaries live apart so that runs do not clobber each other
+    BUILD = os.path.join(VERIF, ".build", "alt-" + hashlib.sha256(os.path.realpath(REPO).encode()).hexdigest()[:10])
+LOCKDIR = os.path.join(VERIF, ".build")
 LEAN = os.path.join(VERIF, "lean")
 DRIVER = os.path.join(LEAN, ".lake", "build", "bin", "modeldriver")
 GOENV = dict(os.environ, GOFLAGS="-mod=mod", GOPROXY="off", GOSUMDB="off", GOTOOLCHAIN="local",
@@ -12,8 +16,9 @@ GOENV = dict(os.environ, GOFLAGS="-mod=mod", GOPROXY="off", GOSUMDB="off", GOTOO
 
 class Lock:
     def __init__(self, name):
-        os.makedirs(BUILD, exist_ok=True)
-        self.path = os.path.join(BUILD, name + ".lock")
+        os.makedirs(LOCKDIR, exist_ok=True)
+        self.path = os.path.join(LOCKDIR if name == "lean" else BUILD, name + ".lock")
+        os.makedirs(os.path.dirname(self.path), exist_ok=True)
     def __enter__(self):
         self.f = open(self.path, "w")
         fcntl.flock(self.f, fcntl.LOCK_EX)
@@ -201,13 +206,16 @@ def covered(path, paths):
 # verdicts / evidence
 
 def write_evidence(pid, tier, seed, level, coverage, assumptions, wall, violations):
-    os.makedirs(os.path.join(VERIF, "evidence"), exist_ok=True)
+    evdir = os.path.join(VERIF, "evidence")
+    if os.path.realpath(REPO) != "/repo":
+        evdir = os.path.join(BUILD, "evidence")   # runs against a scratch tree never touch the committed evidence
+    os.makedirs(evdir, exist_ok=True)
     ev = {"property_id": pid, "tier": tier, "seed": seed, "level": level, "coverage": coverage,
           "assumptions": assumptions, "wall_s": round(wall, 2), "violations": violations}
-    tmp = os.path.join(VERIF, "evidence", f".{pid}.{os.getpid()}.tmp")
+    tmp = os.path.join(evdir, f".{pid}.{os.getpid()}.tmp")
     with open(tmp, "w") as f:
         json.dump(ev, f, indent=1)
-    os.replace(tmp, os.path.join(VERIF, "evidence", pid + ".json"))
+    os.replace(tmp, os.path.join(evdir, pid + ".json"))
 
 def write_replay(pid, payload):
     d = os.path.join(VERIF, "replays")
